@@ -27,6 +27,13 @@ var (
 	errReservedData   = fmt.Errorf("%w: invalid reserved data", ErrCorrupted)
 )
 
+// IsTruncated reports if err says that a record is cut short by the end of the file.
+// For a log that is being appended to this is how a write in flight looks like.
+func IsTruncated(err error) bool {
+	return errors.Is(err, errShortHeader) || errors.Is(err, errShortMessage) ||
+		errors.Is(err, errShortData) || errors.Is(err, errNoMessage)
+}
+
 var crc32cTable = crc32.MakeTable(crc32.Castagnoli)
 
 var magic = [6]byte{0xFF, 'k', 'l', 'e', 'v', 's'}
@@ -413,15 +420,19 @@ func (r *Reader) Read(position int64) (msg Message, nextPosition int64, err erro
 func (r *Reader) readV1(position int64, msg *Message) (nextPosition int64, err error) {
 	// Read header
 	var headerBytes [v1HeaderSize]byte
+	var n int
 	if r.ra != nil {
-		_, err = r.ra.ReadAt(headerBytes[:], position)
+		n, err = r.ra.ReadAt(headerBytes[:], position)
 	} else {
-		_, err = r.r.ReadAt(headerBytes[:], position)
+		n, err = r.r.ReadAt(headerBytes[:], position)
 	}
 	switch {
 	case err == nil:
 		// all good, continue
 	case errors.Is(err, io.ErrUnexpectedEOF):
+		return -1, errShortHeader
+	case errors.Is(err, io.EOF) && n > 0:
+		// ReadAt reports a partial read at the end of the file as io.EOF
 		return -1, errShortHeader
 	default:
 		return -1, fmt.Errorf("read header: %w", err)
@@ -482,15 +493,19 @@ func (r *Reader) readV1(position int64, msg *Message) (nextPosition int64, err e
 func (r *Reader) readV2(position int64, msg *Message) (nextPosition int64, err error) {
 	// Read header
 	var headerBytes [v2HeaderSize]byte
+	var n int
 	if r.ra != nil {
-		_, err = r.ra.ReadAt(headerBytes[:], position)
+		n, err = r.ra.ReadAt(headerBytes[:], position)
 	} else {
-		_, err = r.r.ReadAt(headerBytes[:], position)
+		n, err = r.r.ReadAt(headerBytes[:], position)
 	}
 	switch {
 	case err == nil:
 		// all good, continue
 	case errors.Is(err, io.ErrUnexpectedEOF):
+		return -1, errShortHeader
+	case errors.Is(err, io.EOF) && n > 0:
+		// ReadAt reports a partial read at the end of the file as io.EOF
 		return -1, errShortHeader
 	default:
 		return -1, fmt.Errorf("read header: %w", err)
